@@ -166,6 +166,9 @@ typecomposite(struct type *t1, struct type *t2)
 {
 	/* XXX: implement 6.2.7 */
 	/* XXX: merge with typecompatible? */
+	/* at least keep the array length when only one of the types knows it */
+	if (t1->kind == TYPEARRAY && t1->incomplete && !t2->incomplete)
+		return t2;
 	return t1;
 }
 
